@@ -2,3 +2,4 @@
 pub mod glob;
 pub mod refs;
 pub mod json;
+pub mod http;
